@@ -12,7 +12,7 @@ use zvcore::world;
 /// (a) one call sequence on a REQ with `peers` echo peers. ops: true = send, false = recv.
 /// `dead_first`: the first peer's connection fails every write (the socket has not noticed yet).
 fn req_sequence(ops: &[bool], peers: usize, dead_first: bool) -> Verdict {
-    world::reset(world::WorldCfg { nested_env: false, yields: false, select: false, policy: 0 });
+    world::reset(world::WorldCfg { nested_env: false, yields: false, select: false, policy: 0, coop: false });
     let conns: Vec<e3::RawConn> = (0..peers).map(|i| e3::raw_conn(&format!("rep{}", i))).collect();
     for c in &conns {
         c.send(&rc::handshake("REP", None));
@@ -112,7 +112,7 @@ fn ops_show(ops: &[bool]) -> String {
 
 /// (a) one call sequence on a REP with `peers` peers that each have queued 3 requests
 fn rep_sequence(ops: &[bool], peers: usize) -> Verdict {
-    world::reset(world::WorldCfg { nested_env: false, yields: false, select: false, policy: 0 });
+    world::reset(world::WorldCfg { nested_env: false, yields: false, select: false, policy: 0, coop: false });
     let conns: Vec<e3::RawConn> = (0..peers).map(|i| e3::raw_conn(&format!("req{}", i))).collect();
     for (p, c) in conns.iter().enumerate() {
         c.send(&rc::handshake("DEALER", Some(format!("C{}", p).as_bytes())));
@@ -216,7 +216,7 @@ fn finish_seq(viol: std::rc::Rc<std::cell::RefCell<Vec<(String, String)>>>, obs:
 
 /// (b) k real REQ clients against one real REP, `rounds` requests each
 fn clients_scenario(k: usize, rounds: usize, policy: u8) -> Verdict {
-    world::reset(world::WorldCfg { nested_env: true, yields: true, select: false, policy });
+    world::reset(world::WorldCfg { nested_env: true, yields: true, select: false, policy, coop: false });
     let viol = std::rc::Rc::new(std::cell::RefCell::new(Vec::<(String, String)>::new()));
     let obs = std::rc::Rc::new(std::cell::RefCell::new(Vec::<String>::new()));
     let rep = AnySocket::new(Ty::Rep, None);
